@@ -258,3 +258,7 @@ def run(ctx):
     from engine.sizeofrule import sizeof_match
     sizeof_match(ctx, prog)
 
+    ctx.rule('ZERO-GROWN', 'shared with C03 HDR-CACHE: memory added to the header cache by realloc is zero-filled before use, so no byte of an earlier handle\'s heap data can reach a file written later', floor=1)
+    from rules.C03 import hdr_zero
+    hdr_zero(ctx, prog, 'ZERO-GROWN')
+
